@@ -292,3 +292,20 @@ func c19LGen(r *vu.RNG, n int, emit func(string)) {
 }
 
 func TestVerifC19LG(t *testing.T) { vu.Run(t, "C19", 800, c19LGen, c19LRun) }
+
+// TestVerifC19CL (round 4): parts 2 and 3 in ONE run of the lib/grandpa test binary (one build and link
+// instead of two): about 5/8 of the budget goes to the `vj` / `pl` cases of part 2, the rest to the `vb` cases.
+func TestVerifC19CL(t *testing.T) {
+	gen := func(r *vu.RNG, n int, emit func(string)) {
+		nj := n * 5 / 8
+		c19GenJ(r.Fork(), nj, emit)
+		c19LGen(r.Fork(), n-nj, emit)
+	}
+	run := func(in string) string {
+		if strings.HasPrefix(in, "vb ") {
+			return c19LRun(in)
+		}
+		return c19RunJ(in)
+	}
+	vu.Run(t, "C19", 1500, gen, run)
+}
